@@ -540,8 +540,9 @@ class BuiltinMixin:
         a = self.alloc("list")
         row = z3.Function("split_row", core.StrS, core.StrS, z3.ArraySort(core.IntS, Val))
         ln = z3.Function("split_len", core.StrS, core.StrS, core.IntS)
-        self.heap = self.heap.store("llen", (a,), ln(s, sep))
-        self.heap = self.heap.with_array("lelem", z3.Store(self.heap.cur["lelem"], a, row(s, sep)))
+        # (a fresh list: no write to the footprint of existing lists)
+        self.heap = self.heap.store("llen", (a,), ln(s, sep), bump=False)
+        self.heap = self.heap.with_array("lelem", z3.Store(self.heap.cur["lelem"], a, row(s, sep)), bump=False)
         self.assume(ln(s, sep) >= 1)
         tv = TV("val", mk_ref(a), "list")
         self.elem_hints[str(tv.r)] = "str"
